@@ -1108,6 +1108,8 @@ pub(crate) fn tree_decompose_and_plan(
 ) -> Plan {
     macro_rules! fast_path {
         () => {{
+            #[cfg(feature = "verif-hooks")]
+            egglog_concurrency::verif::probe("plan_single");
             let (header, instrs) = plan_stages(&ctx, strat);
             let stages = JoinStages {
                 instrs: Arc::new(instrs),
@@ -1171,6 +1173,12 @@ pub(crate) fn tree_decompose_and_plan(
         .collect::<Vec<_>>();
     let result_block = loop_lifting(result_block);
 
+    #[cfg(feature = "verif-hooks")]
+    egglog_concurrency::verif::probe("plan_decomposed");
+    #[cfg(feature = "verif-hooks")]
+    if blocks.len() >= 3 {
+        egglog_concurrency::verif::probe("plan_decomposed_3plus_bags");
+    }
     Plan::DecomposedPlan(DecomposedPlan {
         atoms: Arc::new(ctx.atoms),
         header,
